@@ -17,7 +17,7 @@ from . import ser_common as sc
 LEVEL = "proof"
 MANIFEST_ENTRY = {
     "category": "proof",
-    "text": "Lean 4 theorems over the serializer model with skip lists: skipping names at save time loads exactly the stripped graph (every attribute-nested level), skipping at load time equals skipping at save time, recorded lists are honoured without being repeated, type skipping removes exactly the instances, absent names are no-ops, survivors are unchanged. Tied to the code by differential runs of generated attribute-nested graphs with random name/type lists in the three call shapes (save / load / both) on both stores; the five clauses are evaluated on the real results with an independent strip oracle.",
+    "text": "Lean 4 theorems over the serializer model with skip lists: skipping names at save time loads exactly the stripped graph (every attribute-nested level), skipping at load time equals skipping at save time, recorded lists are honoured without being repeated, type skipping at save time removes exactly the instances and the recorded type list removes nothing more at load (`skip_types_at_save`), absent names are no-ops, survivors load as without skipping. Tied to the code by differential runs of generated attribute-nested graphs with random name/type lists in the three call shapes (save / load / both) on both stores; the five clauses are evaluated on the real results with an independent strip oracle.",
     "note": "Trusted: as C01; isinstance/exact-type tests are modelled by a finite subtype relation on the type universe the generator uses; persisted type names must be importable top-level classes (load resolves them with __import__).",
     "technique": "Lean 4 proof (structural induction) + model-vs-implementation correspondence",
 }
